@@ -311,10 +311,17 @@ impl PatchManager {
     /// we would never try to download it again (it would be considered "bad").
     fn delete_patch_artifacts_older_than(&mut self, patch_number: usize) -> Result<()> {
         shorebird_info!("Deleting patch artifacts older than {}", patch_number);
+        // A lower-numbered patch can be the one selected to boot next (e.g. installed from
+        // another channel while this patch was booting). Never delete the selection.
+        let next_boot_number = self
+            .patches_state
+            .next_boot_patch
+            .as_ref()
+            .map(|patch| patch.number);
         for entry in std::fs::read_dir(self.patches_dir())? {
             let entry = entry?;
             match entry.file_name().to_string_lossy().parse::<usize>() {
-                Ok(number) if number < patch_number => {
+                Ok(number) if number < patch_number && Some(number) != next_boot_number => {
                     // delete_patch_artifacts logs for us, no need to log here.
                     let _ = self.delete_patch_artifacts(number);
                 }
